@@ -19,6 +19,20 @@ CLAIMED = {
         design="§3 C11, §4 F1"),
 }
 
+CLAIMED["C08"] = dict(
+    text="Lean 4 theorems (kernel-checked; any number of threads, every operation program, every interleaving of the atomic accesses): "
+         "spin_rw_mutex — at most one writer, never writer with reader, reader field = number of reader-unit owners, no bit-field "
+         "corruption, try_lock truthful and wait-free, upgrade returns true only from the in-place path during which the thread never "
+         "released and no writer can exist, downgrade is one atomic access, no lost grant (free word at quiescence; pending hint only "
+         "while some thread is inside lock()); spin_mutex — holders = flag. Tie: the real headers run under the E-SHIM controlled "
+         "scheduler and every access to the lock word (kind, value read/expected, value written, CAS outcome, operation results) is "
+         "replayed on the model; ghost-holder monitors + bounded-preemption DFS search for failing schedules.",
+    note="Trusted: Lean kernel; standard axioms; harness/shim (atomic shim + baton scheduler); sampled access-level correspondence. "
+         "Sequentially consistent interleavings only (release/acquire visibility not modelled). queuing_mutex, mutex, rw_mutex, "
+         "queuing_rw_mutex, RTM variants: being added (C08 part 2).",
+    technique="Lean 4 proof (N-thread inductive invariant over an atomic-access-level protocol model) + E-SHIM trace replay",
+    design="§3 C08, §2.6")
+
 NOT_YET = "check not built yet in this round (planned: DESIGN.md §3); no claim is made"
 
 
